@@ -194,6 +194,26 @@ fn macro_expand(
         address: 0,
     }))]));
     if let Some(macro_body) = macroses.get(macro_name) {
+        // a replaced line is allocated before its length can be looked at: `.db @0@0@0...` with
+        // a long argument needs gigabytes, so the length is worked out beforehand
+        if !ops.is_empty() {
+            let arguments: Vec<String> = ops.iter().map(|x| x.to_string()).collect();
+            for (cp, raw_line) in macro_body {
+                let grown = arguments.iter().enumerate().fold(0usize, |grown, (num, argument)| {
+                    let uses = raw_line.matches(&format!("@{}", num)).count();
+                    grown.saturating_add(uses.saturating_mul(argument.len()))
+                });
+                if raw_line.len().saturating_add(grown) > MAX_EXPANDED_LINE_LENGTH {
+                    bail!(
+                        "a line of macro {} is longer than {} characters after its parameters were replaced, {} (called on {})",
+                        macro_name,
+                        MAX_EXPANDED_LINE_LENGTH,
+                        cp,
+                        line
+                    );
+                }
+            }
+        }
         let macro_body = if !ops.is_empty() {
             let mut processed = vec![];
             for (cp, raw_line) in macro_body {
